@@ -633,7 +633,7 @@ func evaluateUnary(operator token.Token, right interface{}) interface{} {
 			utils.RuntimeError(operator, err.Error())
 			return nil
 		}
-		return ^value
+		return integerResult(^value)
 
 	default:
 		utils.RuntimeError(operator, "Unknown unary operator: "+operator.Lexeme)
@@ -773,19 +773,30 @@ func handleBitwise(left, right interface{}, operator token.Token) interface{} {
 
 	switch operator.Type {
 	case token.AND:
-		return leftInt & rightInt
+		return integerResult(leftInt & rightInt)
 	case token.OR:
-		return leftInt | rightInt
+		return integerResult(leftInt | rightInt)
 	case token.XOR:
-		return leftInt ^ rightInt
+		return integerResult(leftInt ^ rightInt)
 	case token.LEFT_SHIFT:
-		return leftInt << rightInt
+		return integerResult(leftInt << rightInt)
 	case token.RIGHT_SHIFT:
-		return leftInt >> rightInt
+		return integerResult(leftInt >> rightInt)
 	case token.POWER:
-		return int64(math.Pow(float64(leftInt), float64(rightInt)))
+		return integerResult(int64(math.Pow(float64(leftInt), float64(rightInt))))
 	}
 	return nil
+}
+
+// integerResult turns the result of a bitwise operator into an ordinary number,
+// so that it prints, concatenates and compares like the same number written as
+// a literal; only an integer that a float64 cannot hold exactly keeps its
+// 64-bit form.
+func integerResult(v int64) interface{} {
+	if f := float64(v); f < 9223372036854775808.0 && int64(f) == v {
+		return f
+	}
+	return v
 }
 
 // Helper functions for type conversions
